@@ -9,5 +9,15 @@ for f in sorted(glob.glob('/verif/evidence/*.json')):
         jsonschema.validate(json.load(open(f)), es)
     except Exception as e:
         ok = False; print("INVALID", f, str(e)[:300])
+# props sanity: every stage of every property file is a dict naming a harness that exists (a stray string in a stages list once
+# made setup_cmd fail)
+import os as _os, sys as _sys
+_sys.path.insert(0, _os.path.dirname(_os.path.abspath(__file__)))
+import props as _props
+for _pid, _P in _props.PROPS.items():
+    for _st in _P["stages"]:
+        assert isinstance(_st, dict) and "harness" in _st and "cases" in _st, "props.d/%s.py: malformed stage %r" % (_pid, _st)
+        assert _os.path.exists(_os.path.join(_os.path.dirname(_os.path.dirname(_os.path.abspath(__file__))), "harness", _st["harness"] + ".cpp")), "no harness " + _st["harness"]
+print("props: stages well formed")
 print("valid" if ok else "INVALID")
 sys.exit(0 if ok else 1)
